@@ -2,29 +2,121 @@
 
 ENGINES = [
     {"name": "kani-cbmc", "path": "/verif/kani", "serves_properties": [],
-     "kind_free_text": "Kani 0.68 / CBMC 6.11 bounded model checking of the real ast-grep-core / ast-grep-config crates (path deps on /repo, rebuilt each run) against a pure-Rust mock of the tree-sitter facade"},
-    {"name": "mir-smt", "path": "/verif/tools/mir2smt.py", "serves_properties": [],
-     "kind_free_text": "MIR (cargo +nightly rustc -Zunpretty=mir of /repo) translated to SMT-LIB2 bit-vectors; decided by z3 and cvc5, answers must agree"},
+     "kind_free_text": "Kani 0.68 / CBMC 6.11 (CaDiCaL) bounded model checking of the real ast-grep-core / ast-grep-config crates (path deps on /repo, rebuilt each run) against a pure-Rust mock of the tree-sitter facade; driver tools/runner.py"},
 ]
 
-NOTES = ("Technique family: solver-based checking of the real code. Every verdict is bounded; bounds, stubs and "
-         "assumptions are listed per harness in evidence/<id>.json and DESIGN.md. Exit 2 = inconclusive (never reported as pass).")
+NOTES = ("Technique family: solver-based checking of the real code. Every verdict is bounded; bounds, stubs and assumptions are listed per "
+         "harness in evidence/<id>.json (coverage.samples) and in DESIGN.md §8. Exit 2 = inconclusive (timeout / out of memory / unwinding "
+         "bound / vacuous harness / non-reproducing counterexample): never reported as pass and never as a violation. VERIF_TIER, VERIF_SEED "
+         "(recorded; the solver explores all values, nothing is sampled), VERIF_JOBS, VERIF_SLOTS are honoured.")
+
+TECH = "bounded model checking (Kani/CBMC, SAT) of the real crates compiled from /repo with tree-sitter stubbed; counterexamples replayed natively (Kani concrete playback) before being reported"
 
 CLAIMS = {
+    "C01": {
+        "text": ("Within the stated tree sizes the solver shows, for every tree shape/labelling, every start node and every verdict vector of a symbolic matcher, that "
+                 "FindAllNodes (kind prefilter + pre-order) reports exactly the matching nodes in document order, that the overlap-free visitor reports exactly the outermost "
+                 "matches, that All/Any kind sets are the intersection/union of their children's (so the kind gate never drops an accepted node), and that CombinedScan's "
+                 "dispatch table reports per rule exactly what the rule matches individually."),
+        "note": ("Bounds: trees <= 4 nodes (quick) / 5 (thorough), kinds 1..8 + ERROR on nodes. Matchers are stubs honouring the Matcher contract. Not covered: real grammars and "
+                 "texts; the CLI wiring of `sg run/scan` (walker, printers) and its literal-substring prefilter; rules whose kind set contains ERROR (65535) in CombinedScan "
+                 "(65536-step table growth loop out of reach)."),
+    },
+    "C02": {
+        "text": ("For flat sibling lists of k <= 3 children with symbolic kinds/texts the solver shows that the pattern cut from the list (named children replaced by distinct "
+                 "$VAR holes, or a trailing run by $$$VAR; hole mask concrete per harness) matches the list under all five strictness levels and binds every hole to exactly "
+                 "the node(s) it replaced."),
+        "note": ("Premise of the property (pattern parses to the same tree shape) is assumed by construction. The alignment routine is driven one level below "
+                 "Pattern::match_node (match_nodes_impl_recursive via hook), root-kind dispatch is covered by C03's kind harness. Nesting deeper than one level is argued "
+                 "compositional, not checked. 23 real grammars not reachable."),
+    },
+    "C03": {
+        "text": ("The solver shows (a) the per-node decision of every strictness level equals the decision table of the documentation for every goal/candidate label pair, "
+                 "(b) are_kinds_matching over all u16 pairs, (c) which leftover goals may stay unmatched, and (thorough) (d) for concrete pattern variant vectors over flat "
+                 "lists that a reported match always has a legal alignment per an oracle written from the property text, and that a reported prefix length never exceeds the "
+                 "node nor splits a child."),
+        "note": ("Bounds: k <= 3 candidates, <= 3 goals, labels from 5 kinds + ERROR, 1-2 byte texts. One nesting level. Known finding D5 (tokens after `$$$` are skipped "
+                 "unchecked) is listed in known_findings.txt and tolerated by the oracle as exactly that class."),
+    },
+    "C04": {
+        "text": ("For the composite matchers All/Any over stub children that may write a binding and then fail, with a symbolic pre-existing environment, the solver shows "
+                 "that Any exposes exactly the winning branch, All the union, and that a failed composite leaves the environment untouched; MetaVarEnv::insert coherence "
+                 "(same name => structurally equal) is exercised through the stubs' conflicting writes."),
+        "note": "Bounds: 3 children, names {A,B}, root + 2 leaves. Relational-rule candidates and utility constraints (config crate) are not covered by this check.",
+    },
+    "C05": {
+        "text": ("For every tree of <= 4 nodes (5 thorough), every target node and each of inside/has/precedes/follows x stopBy in {neighbor,end,rule} x field, the solver "
+                 "shows the real relational matchers agree with an independent evaluator written from the rule reference."),
+        "note": ("Rule values are built from parts through hook constructors (deserialize_rule is exercised by 4 thorough harnesses only). Leaf rules are `kind` tests. "
+                 "all/any/not are covered at the ops level (C01/C04 harnesses); nthChild's An+B under C20; regex/range not covered. Preconditions of the reference assumed: no "
+                 "zero-width nodes, a field labels at most one child."),
+    },
+    "C06": {
+        "text": ("The solver shows that Node::replace_all yields ordered, pairwise disjoint, in-bounds edits equal to [match start, start + match_len) for every tree <= 4 nodes "
+                 "and symbolic matcher, and (thorough) that the `rewrite` transformation equals the captured text with exactly the rewriters' ranges substituted."),
+        "note": "CLI splice (`apply_rewrite`) and file I/O are not reachable (cli crate); UTF-8 boundary clause relies on the tree-sitter contract (node ranges on char boundaries).",
+    },
+    "C07": {
+        "text": ("The solver shows split_first_meta_var agrees with a reference scanner on every string <= 7 bytes starting with the sigil, get_indent_at_offset equals the "
+                 "line's leading-space count for every prefix <= 8 bytes, and extract_with_deindent/indent_lines shift every continuation line by exactly (to - from) and are the "
+                 "identity for to == from (self-rewrite is a no-op)."),
+        "note": ("Whole-template scanning (create_template) is decided only up to 4-byte templates in the thorough tier: String-heavy code exhausts the back end beyond that "
+                 "(measured, DESIGN §8.2). The 512-byte look-ahead window is exercised only below 512 bytes."),
+    },
+    "C10": {
+        "text": ("For every text <= 4 bytes, edit position, deleted length and inserted text <= 2 bytes the solver shows AstGrep::edit splices the text exactly and hands the old "
+                 "tree exactly one Tree::edit whose InputEdit (byte offsets and row/column points on old and new text) describes the change exactly, then re-parses "
+                 "incrementally -- the whole obligation of the Rust side under tree-sitter's incremental-parsing contract."),
+        "note": ("The incremental parser itself is outside the claim (FFI). Sizes are enumerated concretely (105 size classes), contents symbolic. The defect this check found "
+                 "(double Tree::edit) was lifted to the real TSX parser, see lift/ and known_findings.txt."),
+    },
+    "C11": {
+        "text": ("Panic-freedom (Kani's overflow/index/unwrap checks) of the post-deserialisation kernels for every value in range: parse_an_b on all strings <= 12 bytes, "
+                 "FunctionalPosition::is_matched for all (step, offset) in i32^2, Transformation::used_vars/parse on any source string, the convert word splitter on non-ASCII "
+                 "text, and rejection at load time of a replace transformation whose regex does not compile."),
+        "note": ("YAML/serde front half not executed (values built programmatically). Termination/stack-overflow clause: two accepted-cycle defects are recorded as findings; "
+                 "hangs inside regex/tree-sitter out of reach."),
+    },
+    "C12": {
+        "text": ("The solver shows that the string form and the object form of `fix` both substitute a transformed variable, and (thorough) that utility-rule registration "
+                 "accepts a graph of 3 utilities iff its same-node dependency graph is acyclic for every iteration order of the utils map, and that get_matcher accepts a rule "
+                 "family iff every variable used in constraints/transform/fix is defined, with the fix variable replaced by its value."),
+        "note": "Programmatically built configs (serde front half not executed). End-to-end check_var harnesses are thorough-tier only (30+ min of symbolic execution each).",
+    },
+    "C14": {
+        "text": ("The solver shows parse_suppression_set returns exactly the ids listed after `ast-grep-ignore:` for every comment tail <= 7 bytes, and, for concrete layouts of "
+                 "statements and suppression comments with every monotone assignment of line numbers, that CombinedScan::scan reports a finding iff the rule matches and no "
+                 "applicable suppression exists."),
+        "note": "Layouts (<= 3 siblings) are enumerated per harness; line numbers symbolic in [0,4]; rule configs built from parts. Multi-line comments and nested comments not covered.",
+    },
+    "C16": {
+        "text": ("The solver shows get_char_column equals the number of characters since the last newline for every text of <= 4 characters over {a, 2-byte, 4-byte, newline} "
+                 "and every boundary offset, and that Node::display_context returns exactly the whole-line window (leading/matched/trailing/start_line) for every text <= 6 (9) "
+                 "bytes, node range and before/after <= 2."),
+        "note": "JSON framing and the plain-text merger live in the cli crate (not reachable); meta-variable records reuse the same two kernels.",
+    },
+    "C19": {
+        "text": ("For every tree of <= 4 nodes (5 thorough) with symbolic shape and labels and every start node the solver shows children/parent/child(i) consistency and range "
+                 "nesting, ancestors = iterated parent, next_all/prev_all = iterated next/prev, and that Pre and Post visit exactly the subtree once each in the specified "
+                 "order; Level order is shown for all 9 shapes <= 4 nodes with symbolic labels. Positions: see C16."),
+        "note": "Non-zero-width siblings assumed for the sibling clauses (as the property states). tree-sitter's own cursor is replaced by the mock (contract in kani/mock-ts).",
+    },
     "C20": {
-        "text": ("For every string within the stated length/alphabet bounds the SAT solver shows that the real "
-                 "extract_meta_var / pre-processing / An+B / substring kernels agree with an independently written "
-                 "specification table; counterexamples are replayed natively before being reported."),
-        "note": ("Bounded: strings <= 5 (quick) / 7 (thorough) bytes over a 6-letter alphabet covering every character class the code "
-                 "distinguishes. Whether a spelling lexes as one token in each of the 23 grammars is a grammar fact outside the claim."),
+        "text": ("For every string within the stated length/alphabet bounds the solver shows extract_meta_var agrees with the specification table of the property, parse_an_b "
+                 "with a reference reading of An+B, is_matched with `exists n >= 0: i = A*n+B`, and resolve_char with Python's slice index normalisation over the full i32 range."),
+        "note": ("Strings <= 5 (7 thorough) bytes over alphabets covering every character class the code distinguishes. Whether a spelling lexes as one token in each of the 23 "
+                 "grammars, and per-language expando pre-processing (language crate), are outside the claim."),
     },
 }
 
 NOT_APPLICABLE = {
+    "C08": "The edit paths differ only in which core API each front end calls (cli: make_edit, snapshot: Node::replace, LSP: replace_by); the lsp/cli crates (tokio, tower-lsp, clap, 23 C grammars) cannot be compiled under Kani here and unit extraction was not built. The core side (default/Fixer get_replaced_range) is decided under C06.",
     "C09": "Equality of CLI/sg-test/LSP outputs and LSP notification histories is process I/O + async runtime (tokio, tower-lsp, DashMap): no symbolic-execution path with the installed engines; the shared funnel (CombinedScan, templates) is decided under C01/C14/C07.",
+    "C13": "Process-level clauses (new process / hash seeds / file order / snapshot files) are outside any symbolic engine here; the in-process part (iteration order of the utils map as a solver variable, hook H1) is decided by the C12 util-registration harness and reported there.",
     "C15": "Decided by globset/ignore/regex/extension tables and process exit plumbing inside the cli crate (clap, walker, 23 C grammars): outside what Kani/CBMC can execute here.",
     "C17": "Concurrency of walker threads / mpsc channels: Kani does not model threads and no other solver-based engine for Rust concurrency is installed.",
+    "C18": "`--update-all` is file I/O around cli::print::interactive_print::apply_rewrite; the cli crate cannot be compiled under Kani here and unit extraction was not built. The core edit computation is decided under C06.",
 }
 
-# properties planned but whose harnesses are not built yet (kept out of `checks` until they run)
+# properties whose harnesses exist but are not claimed (reason shown in MANIFEST.not_applicable)
 NOT_YET = {}
